@@ -114,6 +114,153 @@ fn c09_pwhash_verify() {
 '''
 
 
+
+SCHED_STUBS = [("crate::argon2::fill_block", "crate::argon2::verif_harness_argon2::fill_block_stub"),
+               ("crate::blake2b::blake2b_soft::longhash", "crate::argon2::verif_harness_argon2::longhash_stub")]
+
+
+IA_STUB = [("crate::argon2::index_alpha", "crate::argon2::verif_harness_argon2::index_alpha_stub")]
+
+
+def h_schedule(name, ty, t, m, T=32, real_alpha=False):
+    """argon2_hash block schedule for one literal (type, t, m) with lanes = 1: H0 field layout, first-block derivation,
+    and for every position the (previous, reference) blocks handed to G, with G and H' replaced by identity-tagging loggers."""
+    seg = max(m, 8) // 4
+    lane = 4 * seg
+    variant = {1: "Argon2i", 2: "Argon2id"}[ty]
+    if real_alpha:
+        refsel = """let size: u64 = if pass == 0 { cur - 1 } else { LANE - SEG + index - 1 };
+                    let x = (j1 * j1) >> 32;
+                    let y = (size * x) >> 32;
+                    let zz = size - 1 - y;
+                    let startp: u64 = if pass != 0 && slice != 3 { (slice + 1) * SEG } else { 0 };
+                    let refi = (startp + zz) %% LANE;"""
+    else:
+        refsel = """assert!(c - naddr < va::IAL.n, "A2_SCHEDULE_COUNT: one reference index per position");
+                    let q = c - naddr;
+                    assert!(va::IAL.pass[q] as u64 == pass && va::IAL.lane[q] == 0 && va::IAL.slice[q] as u64 == slice && va::IAL.index[q] as u64 == index, "A2_ALPHA_POSITION: the reference index is computed for the position being filled");
+                    assert!(va::IAL.j1[q] as u64 == j1 && va::IAL.same[q], "A2_ALPHA_J1: J1 is the low 32 bits of the previous block's first word (data-dependent) or of the address word (data-independent); one lane");
+                    assert!(va::IAL.seg[q] as u64 == SEG && va::IAL.lanelen[q] as u64 == LANE, "A2_GEOMETRY: segment length = floor(m / 4p), lane length = 4 x segment length");
+                    let refi = va::IAL.ret[q] as u64;"""
+    return rs.hdr(("barrier", "fmt", "b2compress"), extra=SCHED_STUBS + ([] if real_alpha else IA_STUB)) + (r"""
+fn %(name)s() {
+    use crate::argon2::verif_harness_argon2 as va;
+    const T_COST: u64 = %(t)d; const M_COST: u32 = %(m)d; const SEG: u64 = %(seg)d; const LANE: u64 = %(lane)d; const TY: u64 = %(ty)d; const OUTLEN: usize = %(T)d;
+    let pw: [u8; 3] = kani::any(); let salt: [u8; 16] = kani::any();
+    wit!(W_0, &pw); wit!(W_1, &salt);
+    let mut out = [0u8; OUTLEN];
+    let r = crate::argon2::argon2_hash(T_COST as u32, M_COST, 1, &pw, &salt, None, None, &mut out, crate::argon2::Argon2Type::%(variant)s);
+    kani::cover!(r.is_ok(), "hash computed");
+    assert!(r.is_ok(), "A2_OK: a valid parameter set is hashed");
+    unsafe {
+        // ---- H0 (RFC 9106 3.2): one BLAKE2b-64 over p | T | m | t | v | y | |P| | P | |S| | S | |K| | |X|
+        assert!(B2S.b2_n == 1 && B2S.b2_hin[0] == b2_h0(64, 0, &[0u8; 16], &[0u8; 16]), "A2_H0_PARAMS: H0 is an unkeyed BLAKE2b-64");
+        assert!(B2S.b2_t[0][0] == 59 && B2S.b2_t[0][1] == 0 && B2S.b2_f[0][0] == u64::MAX, "A2_H0_LENGTH: H0 hashes exactly 59 bytes for |P| = 3, |S| = 16, no K, no X");
+        let mut want = [0u8; 128];
+        want[0..4].copy_from_slice(&1u32.to_le_bytes());
+        want[4..8].copy_from_slice(&(OUTLEN as u32).to_le_bytes());
+        want[8..12].copy_from_slice(&M_COST.to_le_bytes());
+        want[12..16].copy_from_slice(&(T_COST as u32).to_le_bytes());
+        want[16..20].copy_from_slice(&0x13u32.to_le_bytes());
+        want[20..24].copy_from_slice(&(TY as u32).to_le_bytes());
+        want[24..28].copy_from_slice(&3u32.to_le_bytes());
+        want[28..31].copy_from_slice(&pw);
+        want[31..35].copy_from_slice(&16u32.to_le_bytes());
+        want[35..51].copy_from_slice(&salt);
+        let mut i = 0;
+        while i < 128 { assert!(B2S.b2_blk[0][i] == want[i], "A2_H0_INPUT: LE32(p) | LE32(T) | LE32(m) | LE32(t) | LE32(0x13) | LE32(y) | LE32(|P|) | P | LE32(|S|) | S | LE32(0) | LE32(0)"); i += 1; }
+        let h0 = b2_out_bytes(&B2S.b2_hout[0]);
+        // ---- first blocks (3.2 steps 3-4): B[0][0] = H'^1024(H0 | LE32(0) | LE32(0)), B[0][1] = H'^1024(H0 | LE32(1) | LE32(0))
+        assert!(va::A2L.lh_n == 3, "A2_HPRIME_CALLS: two first blocks and the tag");
+        let mut k = 0;
+        while k < 2 {
+            assert!(va::A2L.lh_outlen[k] == 1024 && va::A2L.lh_inlen[k] == 72, "A2_FIRST_BLOCKS: 1024-byte H' over the 72-byte seed");
+            i = 0;
+            while i < 64 { assert!(va::A2L.lh_in[k][i] == h0[i], "A2_FIRST_BLOCKS: seed starts with H0"); i += 1; }
+            assert!(va::A2L.lh_in[k][64] == k as u8 && va::A2L.lh_in[k][65] == 0 && va::A2L.lh_in[k][66] == 0 && va::A2L.lh_in[k][67] == 0, "A2_FIRST_BLOCKS: LE32(block index)");
+            assert!(va::A2L.lh_in[k][68] == 0 && va::A2L.lh_in[k][69] == 0 && va::A2L.lh_in[k][70] == 0 && va::A2L.lh_in[k][71] == 0, "A2_FIRST_BLOCKS: LE32(lane)");
+            k += 1;
+        }
+        // ---- the schedule (3.2 steps 5-6, 3.4): replay RFC 9106 over block identities
+        let mut ids = [0u64; LANE as usize];
+        let mut js = [0u64; LANE as usize];
+        ids[0] = 500; ids[1] = 501; js[0] = va::A2L.lh_w0[0]; js[1] = va::A2L.lh_w0[1];
+        let mut c: usize = 0;
+        let mut naddr: usize = 0;
+        let mut pass: u64 = 0;
+        while pass < T_COST {
+            let mut slice: u64 = 0;
+            while slice < 4 {
+                let di = TY == 1 || (pass == 0 && slice < 2);
+                let start: u64 = if pass == 0 && slice == 0 { 2 } else { 0 };
+                let mut pr = [0u64; SEG as usize];
+                if di && c + 1 < va::A2L.n && va::A2L.previd[c] == 0 && va::A2L.prev_zero[c] {
+                    // address block (3.4.1.1): G(ZERO, G(ZERO, Z | counter)), Z = (r, l, sl, m', t, y)
+                    let z = [pass, 0, slice, LANE, T_COST, TY, 1, 0];
+                    assert!(va::A2L.inw[c] == z && va::A2L.refid[c] == 0, "A2_ADDRESS_INPUT: Z = (pass, lane, slice, total blocks m', passes, type), counter 1");
+                    assert!(va::A2L.old_zero[c], "A2_ADDRESS_INPUT: G output not mixed with stale data");
+                    assert!(va::A2L.prev_zero[c + 1] && va::A2L.previd[c + 1] == 0 && va::A2L.refid[c + 1] == va::A2L.newid[c] && va::A2L.old_zero[c + 1], "A2_ADDRESS_DOUBLE_G: the address block is G(ZERO, G(ZERO, input))");
+                    i = 0;
+                    while i < SEG as usize { pr[i] = va::A2L.outw[c + 1][i]; i += 1; }
+                    c += 2; naddr += 2;
+                } else {
+                    assert!(!di || start >= SEG, "A2_ADDRESS_MISSING: a data-independent segment must derive its addresses first");
+                }
+                let mut index = start;
+                while index < SEG {
+                    let cur = slice * SEG + index;
+                    let prev = (cur + LANE - 1) %% LANE;
+                    let j = if di { pr[index as usize] } else { js[prev as usize] };
+                    let j1 = j & 0xffff_ffff;
+                    REFSEL
+                    assert!(c < va::A2L.n, "A2_SCHEDULE_COUNT: every position of every segment is filled");
+                    assert!(va::A2L.previd[c] == ids[prev as usize], "A2_SCHEDULE_PREV: G's first input is the previous block of the lane (wrapping to the last block)");
+                    assert!(va::A2L.refid[c] == ids[refi as usize], "A2_SCHEDULE_REF: G's second input is the block selected by J1 per 3.4.1.2 / 3.4.2");
+                    assert!(va::A2L.xor[c] == (pass != 0), "A2_SCHEDULE_XOR: passes after the first XOR onto the old block (v1.3)");
+                    assert!(pass == 0 || va::A2L.oldid[c] == ids[cur as usize], "A2_SCHEDULE_XOR: the old content is that of the overwritten position");
+                    ids[cur as usize] = va::A2L.newid[c];
+                    js[cur as usize] = va::A2L.outw[c][0];
+                    c += 1;
+                    index += 1;
+                }
+                slice += 1;
+            }
+            pass += 1;
+        }
+        assert!(c == va::A2L.n, "A2_SCHEDULE_COUNT: no compression beyond the schedule");
+        // ---- tag (3.2 step 7-8, one lane): H'^T(B[0][q-1])
+        assert!(va::A2L.lh_outlen[2] == OUTLEN && va::A2L.lh_inlen[2] == 1024, "A2_TAG: H'^T over the 1024 bytes of the final block");
+        assert!(va::A2L.lh_in_id[2] == ids[(LANE - 1) as usize] && va::A2L.lh_in_w0[2] == js[(LANE - 1) as usize], "A2_TAG: the final block is the last block of the lane after the last pass");
+        i = 0;
+        while i < OUTLEN && i < 64 { assert!(out[i] == va::A2L.lh_out[i], "A2_TAG: the output is H' of the final block"); i += 1; }
+    }
+}
+""" % dict(name=name, ty=ty, t=t, m=m, seg=seg, lane=lane, variant=variant, T=T)).replace("REFSEL", refsel.replace("%%", "%"))
+
+
+def sched_suite(tier):
+    inst = [(2, 1, 8), (2, 2, 11), (1, 1, 9)] if tier == "quick" else [(2, 1, 8), (2, 2, 11), (1, 1, 9), (2, 3, 8), (1, 3, 8), (2, 1, 12), (2, 2, 15), (1, 2, 13), (2, 1, 16)]
+    src = rs.prelude()
+    hs = []
+    if tier != "quick":
+        inst = inst + [(2, 1, 8, True)]
+    for it in inst:
+        ty, t, m = it[:3]
+        real = len(it) > 3
+        n = "c09_schedule_%s_t%d_m%d%s" % ({1: "i", 2: "id"}[ty], t, m, "_realalpha" if real else "")
+        src += h_schedule(n, ty, t, m, real_alpha=real)
+        hs.append(Harness(n, unwind=1030, timeout=3000, mem_gb=16, site="argon2::argon2_hash",
+                          desc="block schedule of argon2_hash for type %s, t = %d, m = %d KiB, 1 lane, |P| = 3, |S| = 16 symbolic: H0 layout, first blocks, per-position (prev, ref) selection with symbolic J, "
+                               "address generation, XOR passes, tag == RFC 9106 (G and H' replaced by identity-tagging loggers)" % ({1: "i", 2: "id"}[ty], t, m),
+                          bounds={"type": ty, "t_cost": t, "m_cost_kib": m, "lanes": 1, "pwlen": 3, "saltlen": 16, "outlen": 32}))
+    s = Suite("C09", src, hs, stubs=rs.stub_names(("barrier", "fmt", "b2compress"), extra=SCHED_STUBS + IA_STUB),
+              functions=["argon2::{argon2_hash, Argon2Context::new, Argon2Instance::new, argon2_initial_hash, argon2_fill_first_blocks, argon2_fill_memory_blocks, fill_segment, index_alpha, generate_addresses, argon2_finalize, load_block, store_block, copy_block}"],
+              assumptions=ASSUMPTIONS + ["fill_block == RFC 9106 G and longhash == H' (the other C09 obligations)"],
+              argon2_source=open(os.path.join(VERIF, "harness", "argon2_sched.rs")).read())
+    s.tag = "sched"
+    return s
+
+
 def suites(tier, seed):
     src = rs.prelude() + rs.load("rng.rs")
     hs = []
@@ -131,7 +278,7 @@ def suites(tier, seed):
     hs.append(Harness("c09_pwhash_verify", unwind=70, timeout=900, site="PwHash::verify", desc="Ok <=> recomputed hash == stored hash (Argon2 stubbed with a symbolic output)", bounds={}))
     return [Suite("C09", src, hs, stubs=rs.stub_names(("barrier", "fmt", "b2compress"), extra=A2_STUB),
                   functions=["blake2b::blake2b_soft::longhash", "classic::crypto_pwhash::{crypto_pwhash,convert_costs}", "pwhash::PwHash::{verify,hash_with_salt}"],
-                  assumptions=ASSUMPTIONS)]
+                  assumptions=ASSUMPTIONS), sched_suite(tier)]
 
 
 def e2(tier, seed, scratch, logdir):
